@@ -10,16 +10,20 @@ import common
 import corechecks
 
 THEOREMS = ['C10_oneBatch', 'C10_counterOnlyThere', 'C10_support']
-MODULE = 'NautilusVerif.Properties.C10'
+RUN_THEOREMS = ['C10_noBatchBeyond', 'C10_budget', 'C10_success']
+MODULE = [('NautilusVerif.Properties.C10', THEOREMS), ('NautilusVerif.Properties.C10Run', RUN_THEOREMS),
+          ('NautilusVerif.Properties.C05Tie', ['C05_run_skeleton'])]
 FILES = ['nautilus/sampler.py']
 INVARIANTS = ['aligned']
 
 
 def run(chk):
     chk.extra['source_digest'] = common.source_digest(FILES)
-    chk.prove(MODULE, THEOREMS)
+    import gen_c05
+    text5, _ = gen_c05.generate(common.REPO)
+    chk.prove(MODULE, None, {'NautilusVerif/Generated/C05.lean': text5})
     if chk.tier == 'thorough':
-        chk.leanchecker([MODULE])
+        chk.leanchecker([m for m, _ in MODULE])
     results = corechecks.run_all(chk.tier, chk.seed)
     corechecks.report(chk, 'C10', results, INVARIANTS)
     chk.assumptions += ['proposals lie in the unit cube (C07/C16)', 'n_eff comparisons are not NaN (all-zero-likelihood runs excluded)']
